@@ -298,8 +298,8 @@ class Gen(object):
             return n
         fonts_seen = []
         def fontname(v):
-            # font declarations are keyed by style:name: distinct names, except for a rare deliberate repeat
-            if v in fonts_seen and r.random() > 0.1:
+            # mostly distinct font names; a name repeated inside the document must survive too
+            if v in fonts_seen and r.random() > 0.3:
                 v = u'%s %d' % (v, len(fonts_seen))
             fonts_seen.append(v)
             return v
@@ -597,11 +597,6 @@ def compare_docs(rep, s1, s2, pkg1, folder, where=''):
         rep.add('mimetype-differs', '%s%r vs %r' % (where, s1['mimetype'], s2['mimetype']))
     for sec in ('body', 'styles', 'master-styles', 'font-face-decls', 'settings', 'scripts'):
         a = s1[sec]; b = s2[sec]
-        if sec == 'font-face-decls' and a != b and repeated_font_names(a) and \
-                [k for k in first_of_each_name(a) if k[0] == 'E'] == [k for k in b if k[0] == 'E']:
-            rep.add('font-face-name-repeated', '%sthe document declares the font name(s) %r more than once: only the first declaration of a name is loaded'
-                    % (where, repeated_font_names(a)))
-            continue
         if sec == 'font-face-decls' and folder and a and not b:
             rep.add('subdocument-font-face-decls-dropped', '%s%d font declarations of the sub-document are gone' % (where, len(a)))
             continue
@@ -748,9 +743,7 @@ def compare_generations(rep, p1, p2, s1=None):
                                                     ('body', 'styles', 'master-styles', 'automatic-styles', 'settings', 'meta', 'scripts', 'font-face-decls'))
                     for d in ds:
                         sig = 'second-generation-part-differs'
-                        if s1 is not None and 'font-face-decls' in d['path'] and repeated_font_names(snapshot_at(s1, folder)['font-face-decls']):
-                            sig = 'font-face-name-repeated'
-                        elif both:
+                        if both:
                             sig = 'style-name-collision'
                         elif folder and d['kind'] == 'children' and any('font-face-decls' in x for x in d['a']) and not any('font-face-decls' in x for x in d['b']):
                             sig = 'subdocument-font-face-decls-dropped'
@@ -917,6 +910,8 @@ def run(chk, replay=None):
                 L.correspond_document(chk, drv, p1, folder, real, dict(key, folder=folder), rng=chk.rng if i % 2 else None)
             nel = len(list(L.elems(forest_el('b', s1['body']))))
             chk.count('class:' + rec['class'])
+            if has_nested_section(s1['body']) or any(has_nested_section(o['body']) for o in s1['objects']):
+                chk.count('docs_with_inline_office_document')
             chk.count('objects', len(rec['objects'])); chk.count('pictures', len(rec['pictures']))
             chk.case(i, nontrivial=nel >= 8, sample={'class': rec['class'], 'body_elements': nel, 'findings': sorted(set(s for s, _ in rep.items))})
             seen = set()
